@@ -156,7 +156,8 @@ def step (s : S) : List String → S × String
       | .panic site => ({ s with pending := none, txs := [], events := [], dead := some site }, s!"panic {site}")
       | .err e => ({ s with pending := none, txs := [], events := [], dead := some e }, s!"err {e}")
   | ["dump", name] => (s, renderSection s.cfg s.st name)
-  | ["index.oracle.nofail", _, _] => (s, toString s.dead.isNone)
+  -- C16 on the implementation's own outcome (the generated chain is valid by construction)
+  | ["index.oracle.nofail", _, _, outcome] => (s, toString (outcome == "ok" && s.dead.isNone))
   -- events of all blocks indexed since the previous `events` request (one update call)
   | ["events"] => ({ s with events := [] }, joinOr (canonEvents (s.events.map renderEvent)) "|")
   | _ => (s, "bad-op")
